@@ -169,6 +169,7 @@ class Ctx:
         self.scratch = tempfile.mkdtemp(prefix="verif_%s_" % pid)
         self.findings = load_findings(pid)
         self.mod = None
+        self._built = set()
 
     # ---- bookkeeping -----------------------------------------------------
     @property
@@ -224,6 +225,7 @@ class Ctx:
         mismatching cases and registers a correspondence break for them."""
         if not cases:
             return []
+        self.ensure_built(header)
         shards = [cases[i:i + shard] for i in range(0, len(cases), shard)]
         files = []
         for k, sh_ in enumerate(shards):
@@ -268,7 +270,22 @@ class Ctx:
             self.break_("correspondence", {"name": name, "more": len(bad) - 5})
         return bad
 
+    def ensure_built(self, header):
+        """build (once) the .vo files a generated file imports: `From DD Require Import A.B ...`"""
+        mods = []
+        for m in re.finditer(r"From\s+DD\s+Require\s+Import\s+(.*?)\.(?:\s|$)", header, re.S):
+            mods += m.group(1).split()
+        mods = [m for m in mods if m not in self._built]
+        if not mods:
+            return
+        self._built.update(mods)
+        targets = " ".join("theories/" + m.replace(".", "/") + ".vo" for m in ["Base.Sx"] + mods)
+        rc, out = build_coq(target=targets)
+        if rc != 0:
+            self.break_("correspondence", {"name": "build of model files", "error": out[-2000:]})
+
     def coq_eval(self, name, header, expr, timeout=900):
+        self.ensure_built(header)
         """Evaluate one Coq expression of type string; returns its text (the
         Coq side must produce `"BEGIN\\n" ++ ... ++ "END"`)."""
         fn = os.path.join(self.scratch, "eval_%s.v" % name)
@@ -315,8 +332,12 @@ def ensure_makefile():
         sh("coq_makefile -f _CoqProject -o Makefile", cwd=COQ)
 
 
-def build_coq(clean=False, timeout=3000):
-    rc, out = sh("./mk --clean" if clean else "./mk", cwd=COQ, timeout=timeout)
+def build_coq(clean=False, timeout=3000, target=None):
+    """full build (setup) or, with target, the dependency cone of one file"""
+    cmd = "./mk --clean" if clean else "./mk"
+    if target:
+        cmd += " " + target
+    rc, out = sh(cmd, cwd=COQ, timeout=timeout)
     return rc, out
 
 
@@ -376,7 +397,12 @@ def proof_step(ctx, thm_file):
     """make (no-op when up to date) + unconditional coqc of the property file,
     parsing Print Assumptions."""
     t = time.time()
-    rc, out = build_coq(clean=False)
+    # only the dependency cone of this property's theorem file (plus the Show files the
+    # correspondence needs, built on demand below): an unrelated broken file is not this
+    # property's proof break
+    targets = "theories/" + thm_file[:-2] + ".vo " + " ".join(
+        "theories/" + m.replace(".", "/") + ".vo" for m in getattr(ctx.mod, "COQ_NEEDS", []))
+    rc, out = build_coq(clean=False, target=targets)
     if rc != 0:
         ctx.break_("proof", {"stage": "make", "log": out[-3000:]})
         # continue: maybe the property file's own cone still compiles
